@@ -421,6 +421,12 @@ func (s *Sim) doDeliver(k int) {
 		return
 	}
 	s.record(EvDeliver, m.To, &m, 0, 0)
+	if len(m.Entries) > 0 {
+		// what arrives is a decoded copy, as on a wire: the sender built the message from slices of its own log and
+		// storage, and a receiver that keeps the slice (raft does) must not be able to reach the sender's memory
+		// through it - nor a duplicate of the message
+		m.Entries = append(make([]pb.Entry, 0, len(m.Entries)), m.Entries...)
+	}
 	_ = s.nodes[m.To].rn.Step(m)
 	if m.Type == pb.MsgSnap && s.alive(m.From) {
 		s.nodes[m.From].rn.ReportSnapshot(m.To, raft.SnapshotFinish)
